@@ -223,6 +223,8 @@ def job_stream(jc, spec):
             ln = ins.get_length()
             out.append((idx, ln, ins.get_raw()))
             idx = idx + ln
+            if len(out) > len(items):
+                raise UnwindExceeded("sweep yields more instructions than there are code bytes")
         return out
 
     def ext(m):
